@@ -21,7 +21,7 @@ import numpy as np
 
 from harness import contracts, gen
 from harness.common import CaseTimeout
-from harness.session import REJECTIONS, Session
+from harness.session import escape_le, REJECTIONS, Session
 from harness.wire import LexError
 
 PROP = "C08"
@@ -215,7 +215,32 @@ def run_case(ctx, col, case):
                 return False
         return True
 
-    for _ in range(ctx.params["calls"]):
+    # four histories in ten re-configure the formatter in place (g.format is the documented accessor)
+    # somewhere in mid-history: line ending and decimal places change, and the very same statements
+    # are issued before and after the change -- "the configured line ending" and "the last configured
+    # decimal place" are the ones in force when a line is written
+    calls = ctx.params["calls"]
+    reconf_at = rng.randrange(1, calls) if rng.random() < 0.4 else None
+
+    def fixed_statements():
+        g.move(x=1.25, y=-3.5, F=1200)
+        g.write("G4 P1")
+        g.comment("mark")
+
+    for i in range(calls):
+        if i == reconf_at:
+            if not emit("fixed-statements", fixed_statements, [(lab["X"], 1.25)], True, []):
+                return
+            new_le_cfg = rng.choice(ENDINGS)
+            new_dp = rng.randint(0, 12)
+            g.format.set_line_endings(new_le_cfg if new_le_cfg == "os" else escape_le(new_le_cfg))
+            g.format.set_decimal_places(new_dp)
+            s.lexer.line_ending = os.linesep if new_le_cfg == "os" else new_le_cfg
+            dp = new_dp
+            cfg["reconfigured_to"] = {"dp": new_dp, "line_ending": new_le_cfg}
+            col.count("formatter_reconfigured_in_place")
+            if not emit("fixed-statements", fixed_statements, [(lab["X"], 1.25)], True, []):
+                return
         if not one_call(rng, g, dp, lab, emit, col):
             return
     if case % 397 == 0:
